@@ -60,9 +60,16 @@ def universe():
     tag.tag_time = 1500
     tag.tag_timezone = 0
     tag.message = b"tag\n"
+    tag2 = Tag()  # a tag of a tag: refs/tags/t -> tag2 -> tag -> c1
+    tag2.name = b"t2"
+    tag2.object = (Tag, tag.id)
+    tag2.tagger = b"A <a@example.com>"
+    tag2.tag_time = 1600
+    tag2.tag_timezone = 0
+    tag2.message = b"tag of a tag\n"
     junk = Blob.from_string(b"unreachable junk\n")
-    _U.update(b1=b1, b2=b2, t1=t1, t2=t2, c1=c1, c2=c2, tag=tag, junk=junk)
-    _U["groups"] = {"G1": [b1, t1, c1], "G2": [b2, t2, c2], "G3": [tag], "G4": [junk]}
+    _U.update(b1=b1, b2=b2, t1=t1, t2=t2, c1=c1, c2=c2, tag=tag, tag2=tag2, junk=junk)
+    _U["groups"] = {"G1": [b1, t1, c1], "G2": [b2, t2, c2], "G3": [tag, tag2], "G4": [junk]}
     _U["byid"] = {o.id: (k, o) for k, o in _U.items() if k not in ("groups", "byid")}
     return _U
 
@@ -255,9 +262,25 @@ BUILD_OPS = [
     ("loose", "G1"), ("loose", "G2"), ("loose", "G3"), ("loose", "G4"),
     ("pack", "G1"), ("pack", "G2"), ("pack", "G1+G2"), ("pack", "G3+G4"), ("pack", "G2+G4"),
     ("alt", "G1"),
-    ("ref", "m", "c1"), ("ref", "m", "c2"), ("ref", "m", None), ("ref", "t", "tag"), ("ref", "t", None),
+    ("ref", "m", "c1"), ("ref", "m", "c2"), ("ref", "m", None), ("ref", "t", "tag"), ("ref", "t", "tag2"), ("ref", "t", None),
     ("head", "c1"), ("head", "c2"), ("head", "m"),
+    ("age",),
 ]
+AGED = 20 * DAY  # "age": every object file (loose, pack, alternate) present so far becomes 20 days old
+
+
+def _object_files(root):
+    out = []
+    for base in (os.path.join(root, "repo", "objects"), os.path.join(root, "alt-objects")):
+        for d, _dirs, files in os.walk(base):
+            if os.path.basename(d) == "info":
+                continue
+            out.extend(os.path.join(d, f) for f in files)
+    return out
+
+
+def _is_old(path):
+    return _time.time() - os.path.getmtime(path) > AGED // 2
 
 
 def build_step(root, op):
@@ -268,6 +291,14 @@ def build_step(root, op):
     try:
         st = r.object_store
         k = op[0]
+        if k == "age":
+            files = [f for f in _object_files(root) if not _is_old(f)]
+            if not files:
+                return False
+            then = _time.time() - AGED
+            for f in files:
+                os.utime(f, (then, then))
+            return True
         if k in ("loose", "pack", "alt"):
             objs = [o for name in op[1].split("+") for o in g[name]]
             if k == "loose":
@@ -296,7 +327,7 @@ def build_step(root, op):
                 del r.refs[name]
                 return True
             target = u[op[2]]
-            need = {"c1": g["G1"], "c2": g["G1"] + g["G2"], "tag": g["G1"] + g["G3"]}[op[2]]
+            need = {"c1": g["G1"], "c2": g["G1"] + g["G2"], "tag": g["G1"] + g["G3"], "tag2": g["G1"] + g["G3"]}[op[2]]
             if not _present(r, need):
                 return False
             r.refs[name] = target.id
@@ -325,13 +356,13 @@ def canon_layout(root):
     r = _open(root)
     try:
         st = r.object_store
-        loose = tuple(sorted(st._iter_loose_objects()))
-        packs = tuple(sorted(tuple(sorted(p.index)) if False else tuple(sorted(x for x in p)) for p in st.packs))
+        loose = tuple(sorted((x, _is_old(st._get_shafile_path(x))) for x in st._iter_loose_objects()))
+        packs = tuple(sorted((tuple(sorted(x for x in p)), _is_old(p._data_path)) for p in st.packs))
         alts = ()
         altp = os.path.join(root, "alt-objects")
         if os.path.isdir(altp):
             a = DiskObjectStore(altp)
-            alts = tuple(sorted(a))
+            alts = tuple(sorted((x, _is_old(a._get_shafile_path(x))) for x in a))
             a.close()
         refs = tuple(sorted((k, r.refs.read_ref(k)) for k in r.refs.allkeys()))
         return (loose, packs, alts, refs)
@@ -454,11 +485,36 @@ def _state_of(root):
         r.close()
 
 
+def _newest_copy(root):
+    """{object id: mtime of its most recently written copy} over loose files, packs and alternates."""
+    from dulwich.object_store import DiskObjectStore
+
+    out = {}
+    stores = [DiskObjectStore(os.path.join(root, "repo", "objects"))]
+    try:
+        altp = os.path.join(root, "alt-objects")
+        if os.path.isdir(altp):
+            stores.append(DiskObjectStore(altp))
+        for st in stores:
+            for x in st._iter_loose_objects():
+                out[x] = max(out.get(x, 0), os.path.getmtime(st._get_shafile_path(x)))
+            for p in st.packs:
+                m = os.path.getmtime(p._data_path)
+                for x in p:
+                    out[x] = max(out.get(x, 0), m)
+    finally:
+        for st in stores:
+            st.close()
+    return out
+
+
 def _judge_sequence(acc, root, build_path, maint_seq, shift):
     live = _open(root)
     try:
         for i, op in enumerate(maint_seq):
             clo, allids = _state_of(root)
+            newest = _newest_copy(root)
+            t_op = _time.time() + shift
             desc = "layout [%s] then %s at clock+%dd" % (" ; ".join("/".join(str(x) for x in b) for b in build_path),
                                                           " ; ".join(opname(m) for m in maint_seq[: i + 1]), shift // DAY)
             rpl = rp(case_maintenance, [list(b) for b in build_path], [list(m) for m in maint_seq[: i + 1]], shift)
@@ -492,9 +548,11 @@ def _judge_sequence(acc, root, build_path, maint_seq, shift):
                     if g == "never":
                         acc.violation(K + "deletes-unreachable-object-although-not-a-pruning-operation", "%s: %s disappeared" % (desc, sorted(short(x) for x in gone)), rpl)
                         return
-                    if g is not None and shift < g:
+                    young = sorted(x for x in gone if t_op - newest.get(x, 0) < g - 60) if g is not None else []
+                    if young:
                         acc.violation(K + "deletes-unreachable-object-younger-than-grace-period",
-                                      "%s: %s disappeared although only %d days old (grace %d days)" % (desc, sorted(short(x) for x in gone), shift // DAY, g // DAY), rpl)
+                                      "%s: %s disappeared although its newest copy was only %d days old (grace %d days)" % (
+                                          desc, [short(x) for x in young], int(t_op - newest.get(young[0], 0)) // DAY, g // DAY), rpl)
                         return
                     acc.outcome("%s:pruned-unreachable" % op[0])
             finally:
@@ -649,7 +707,7 @@ def run(ctx):
         evaluations=n.get("maintenance_steps", 0) + n.get("race_executions", 0),
         distinct_nontrivial=len(ctx.acc.classes),
         rule="(A) layouts = distinct canonical repositories (refs + partition of objects into loose / packs / alternate) reachable by <=%d of %d builder "
-             "operations over an 8-object universe; from each, every maintenance operation and pair (of %d) under clock +0 and +30 days; oracle on live and reopened store. "
+             "operations over a 9-object universe (incl. a tag of a tag); from each, every maintenance operation and pair (of %d) under clock +0 and +30 days; oracle on live and reopened store. "
              "(B) reader x repacker x layout x warm/cold, all interleavings with <=%d preemption(s) (conflict-filtered)." % (
                  3 if q else 4, len(BUILD_OPS), len(ops), 1 if q else 2),
         exhaustive=True,
@@ -657,7 +715,9 @@ def run(ctx):
         race_executions=n.get("race_executions", 0),
     )
     ctx.assumptions += [
-        "the clock is shifted for the maintenance code (dulwich.gc / dulwich.object_store time module) instead of ageing files",
+        "the clock is shifted for the maintenance code (dulwich.gc / dulwich.object_store time module); the builder operation 'age' "
+        "additionally makes every object file present so far 20 days old (utime), so that copies of one object can differ in age; "
+        "an object's age is that of its most recently written copy",
         "objects reachable only from reflogs / index / other worktrees are not part of the statement (refs and HEAD only)",
         "readers and repackers are processes sharing only the repository directory",
     ]
